@@ -266,3 +266,32 @@ def a6(ctx):
                         ok = True
                         det.append("%s: %s" % (c["callee"].split("::")[-1], short(okf[0][2], 70)))
         yield Ob(key_of("C03-A6", b.path, "offset-aligned"), ok and bool(maps), "the mapping call is reached only when offset %% alignment == 0: %s" % (det or "NO such guard"), b.loc())
+
+
+@rule("C03-A7", "C03", 3, "memory maps are page aligned and no more: a maximum alignment above the page size cannot be honoured by the anonymous or file map constructors "
+      "(only the Vec backing allocates with that alignment), so they must refuse it instead of handing out addresses that are not aligned for such types",
+      configs=("memmap", "memmap-nooverflow", "memmap-tracing"))
+def a7(ctx):
+    for name, pat in (("map_mut_in", r"^memory::Memory::<R, PR, H>::map_mut_in$"), ("map_in", r"^memory::Memory::<R, PR, H>::map_in$"), ("map_anon", r"^memory::Memory::<R, PR, H>::map_anon$")):
+        b = ctx.facts.one(pat)
+        ev, res = ctx.eval(b, no_inline=(r"\{closure",))
+        maps = [e for e in res.log if e["kind"] == "call" and not e["chain"] and (re.search(r"FnOnce.*::call_once$", e["callee"]) or e["callee"].endswith("MmapOptions::map_anon"))]
+        ok = False
+        det = []
+
+        def is_guard(f):
+            s_ = show(f)
+            return f[0] == "cmp" and f[1] in ("Le", "Ge", "Lt", "Gt") and "maximum_alignment" in s_ and ("PAGE_SIZE" in s_.upper() or "LazyLock<u32>" in s_)
+        for e in maps[:1]:
+            fs = ctx.facts_of(ev, e)
+            if any(is_guard(f) for f in fs):
+                ok = True
+            for c in res.log:
+                if c["kind"] == "call" and c.get("inlined") and not c["chain"] and c["seq"] < e["seq"] and b.dominates(c["bb"], e["bb"]):
+                    r_ = c["result"]
+                    errs = [p_[0] for n_, p_ in (dict(r_[2]).items() if tag(r_) == "vsum" else []) if n_ == "Err" and p_]
+                    passed = any(f[0] == "discr" and f[2] in (("eq", 0), ("ne", (1,))) and (mentions(f[1], r_) or any(mentions(f[1], x_) for x_ in errs)) for f in fs)
+                    if passed and any(is_guard(f) for f in ok_facts_deep(ctx, ev, c)):
+                        ok = True
+                        det.append(c["callee"].split("::")[-1])
+        yield Ob(key_of("C03-A7", b.path, "alignment-within-page"), ok and bool(maps), "%s: the mapping is created only when maximum_alignment <= page size (%s)" % (name, det or ("guard in place" if ok else "NO such guard")), b.loc())
